@@ -110,6 +110,9 @@ func (t *loopTr) setupRecv() {
 		t.recvParam = id
 		return
 	}
+	if t.keyRecv() {
+		return // stage 13 (loops_key.go): a key / curve of pkg/slip10/elliptic
+	}
 	if t.bigRecv() {
 		return // stage 10 (loops_big.go): a value receiver that embeds *elliptic.CurveParams
 	}
